@@ -188,11 +188,13 @@ TypeOf(key) ==
     [] key = "VecTup"      -> Plain(Vec(Named("Tup")))
     [] key = "VecOpt"      -> Plain(Vec(Named("Opt")))
     [] key = "MapShape"    -> Plain(Map(STR, Named("Shape")))
+    [] key = "VecAttrVec"  -> Plain(Vec(Named("AttrVec")))
+    [] key = "VecAttrMap"  -> Plain(Vec(Named("AttrMap")))
 
 \* collections whose element type carries the header / attribute / body combinations
 ReuseKeys == {"VecHdrBoth", "MapHdrBoth", "OptHdrBoth", "CollHdr", "VecHdrSlots", "VecHdrBody", "VecHdrVec", "VecHdrNest", "VecHdrOpt",
               "VecWithAttr", "VecTwoAttrs", "VecBodyNest", "VecBodyStr", "VecShape", "VecOpSI", "VecTagField", "VecTup", "VecOpt",
-              "MapShape"}
+              "MapShape", "VecAttrVec", "VecAttrMap"}
 
 AllKeys == {"Unit", "Simple", "Two", "Tup", "Renamed", "TupRen", "WithAttr", "TwoAttrs", "HdrBody", "HdrSlots", "HdrOpt",
             "AttrVec", "AttrMap", "HdrBoth", "HdrVec", "HdrNest", "BodyVec", "BodyStr", "BodyNest", "Skippy", "SkipTup", "Opt", "Coll",
